@@ -156,7 +156,7 @@ def grep_forbidden():
     return hits
 
 
-def proof_side(pid, required, log):
+def proof_side(pid, required, log, thorough=False):
     """Build + audit.  Returns dict(obligations, discharged, problems=[...], theorems={...})."""
     problems = []
     ok, out = lake_build(log)
@@ -180,6 +180,13 @@ def proof_side(pid, required, log):
             problems.append({"kind": "foreign-axiom", "theorem": name, "axioms": bad})
         else:
             discharged += 1
+    if ok and thorough:
+        # independent re-check of the compiled module by Lean's stand-alone kernel checker
+        t0 = time.time()
+        p = subprocess.run(["lake", "env", "leanchecker", f"Spp.Props.{pid}"], cwd=LEAN_DIR, capture_output=True, text=True)
+        log.append(f"leanchecker Spp.Props.{pid}: rc={p.returncode} {time.time() - t0:.1f}s")
+        if p.returncode != 0:
+            problems.append({"kind": "leanchecker-failed", "detail": (p.stdout + p.stderr)[-2000:]})
     hits = grep_forbidden()
     for h in hits:
         problems.append({"kind": "forbidden-token", "where": h})
@@ -311,7 +318,7 @@ def run_property(pid, tier, seed, replay=None):
                     os.unlink(os.path.join(rdir, fn))
     mod = importlib.import_module(f"harness.props.{pid.lower()}")
     rng = random.Random(seed * 1000003 + int(hashlib.sha256(pid.encode()).hexdigest()[:8], 16))
-    proof = proof_side(pid, getattr(mod, "REQUIRED_THEOREMS", []), log)
+    proof = proof_side(pid, getattr(mod, "REQUIRED_THEOREMS", []), log, thorough=(tier == "thorough"))
     proof_broken = bool(proof["problems"])
     eff_tier = "thorough" if proof_broken else tier  # broken obligation => search harder for a failing input
 
